@@ -195,12 +195,18 @@ macro_rules! write_float {
         let require_exponent = format.required_exponent_notation() || outside_break;
         if !format.no_exponent_notation() && require_exponent {
             // Write digits in scientific notation.
+            #[cfg(lexical_verif)]
+            lexical_util::verif::hit(lexical_util::verif::WRITE_SCIENTIFIC);
             $write_scientific::<$($generic,)? FORMAT>($bytes, $($args,)*)
         } else if $sci_exp < 0 {
             // Write negative exponent without scientific notation.
+            #[cfg(lexical_verif)]
+            lexical_util::verif::hit(lexical_util::verif::WRITE_NEGATIVE);
             $write_negative::<$($generic,)? FORMAT>($bytes, $($args,)*)
         } else {
             // Write positive exponent without scientific notation.
+            #[cfg(lexical_verif)]
+            lexical_util::verif::hit(lexical_util::verif::WRITE_POSITIVE);
             $write_positive::<$($generic,)? FORMAT>($bytes, $($args,)*)
         }
     }};
